@@ -429,6 +429,10 @@ class ExprMixin(EngineCore):
             if r is None:
                 raise EngineError(f"module {v.dotted} has no attribute {attr}")
             return [(st, self.global_to_value(r, st, ctx))]
+        if isinstance(v, ClassVal) and any(b.endswith("enum.Enum") or b.endswith("enum.IntEnum") for b in self.P.external_bases(v.ci)) \
+                and attr in v.ci.class_attrs:
+            # enum member: a stable small integer code (its position in the class body)
+            return [(st, z3.IntVal(list(v.ci.class_attrs).index(attr) + 1))]
         if isinstance(v, ClassVal):
             fi = self.P.find_method(v.ci, attr)
             if fi is not None:
